@@ -64,6 +64,20 @@ def gen(rng, tier):
                 for fam, lab in [("arr", 0), ("marrd", 1)] + ([("marrdn", 1)] if len(sizes) == 2 else []):
                     out.append(Case("prod%d" % len(sizes), ty, fam, rng.choice(["own", "ref"]), list(sizes), nums,
                                     mdims=list(sizes) + [lab], tag="overfull_dogmatic_product"))
+        # every factor has a value of base rate exactly 0 that carries belief mass (random floats): the cells of such
+        # values put no bound on the uncertainty, whatever the sign of their rounding residue P - b0 b1; all families
+        for sizes in [(2, 2), (2, 3), (3, 2), (3, 3), (2, 2, 2), (2, 3, 2), (3, 2, 2)]:
+            for i in range(8 if tier == "quick" else 300):
+                ws = []
+                for n in sizes:
+                    b, u = G.float_simplex(rng, ty, n)
+                    k = rng.below(n)
+                    a = G.float_dist(rng, ty, n - 1, True)
+                    ws.append((b, u, a[:k] + [0.0] + a[k:]))
+                nums = sum((flat_op(w) for w in ws), [])
+                for fam, lab in [("arr", 0), ("marrd", 1)] + ([("marrdn", 1)] if len(sizes) == 2 else []):
+                    out.append(Case("prod%d" % len(sizes), ty, fam, rng.choice(["own", "ref"]), list(sizes), nums,
+                                    mdims=list(sizes) + [lab], tag="zero_base_rate_float"))
         for n0 in (2, 3):
             for n1 in (2, 3):
                 for n2 in (2, 3):
